@@ -124,6 +124,10 @@ func runC20(e *core.Env, n int) {
 				sc.Receiver = append(sc.Receiver, Op{Op: "recvall"})
 			}
 		}
+		if r.Intn(3) == 0 {
+			// callers that ask for the response headers through the call option
+			sc.NHdrOpt = 1
+		}
 		e.Note("%s dir=%v k=%d n=%d release=%s hdr=%v", sc.Kind, toServer, k, nsend, release, hdr)
 		run := inp.Svc.NewRun(sc, "inproc")
 		done := make(chan struct{})
